@@ -49,6 +49,7 @@ class Contract:
         self.fresh_result = self.attrs.get("fresh_result", True)
         self.allow_self_inline = False
         self.property_ids = self.attrs.get("properties", [])
+        self.split = self.attrs.get("split", [])
 
     def clauses(self, which):
         fn = self.fns.get(which)
@@ -87,6 +88,7 @@ class Registry:
         self.lemmas = {}
         self.current = None
         self.inline_ok = set()
+        self.force_inline = set()
         self.externals = {}
         self.E = z3.Function("E_cp1252", INT, INT)     # code point -> byte   (external codec table)
         self.D = z3.Function("D_cp1252", INT, INT)     # byte -> code point
@@ -96,6 +98,7 @@ class Registry:
             z3.ForAll([c], z3.And(self.D(c) >= 0, self.D(c) <= 0x10FFFF), patterns=[self.D(c)]),
         ]
         self.modules = []
+        self.externals["random.randrange"] = _ext_randrange
         for name in contract_modules:
             self.load(name)
 
@@ -402,6 +405,15 @@ class Registry:
         scope["result"] = res
         eclauses, eparams = con.clauses("ensures")
         for c in eclauses:
+            if isinstance(c, ast.Compare) and len(c.ops) == 1 and isinstance(c.ops[0], ast.Is) \
+                    and isinstance(c.left, ast.Attribute):
+                # `obj.field is x` in a callee post binds the reference-valued field
+                cfr = self.clause_frame(con, eparams, scope, ex)
+                base = ex.obj(ex.ev(c.left.value, cfr))
+                val = ex.ev(c.comparators[0], cfr)
+                if base is not None and isinstance(val, Ref):
+                    base.fields[c.left.attr] = val
+                    continue
             ex.assume(ex.truth(ex.ev(c, self.clause_frame(con, eparams, scope, ex))))
         if uses_inv and recv is not None or fi.name == "__init__":
             self.assume_class_invariant(ex, env.get("self"))
@@ -431,6 +443,21 @@ class Registry:
             holder[0].fields[holder[1]] = self.fresh_of_sort(ex, ex.obj(v).cls.qualname, path.replace(".", "_"))
         else:
             raise Unsupported(f"cannot havoc {path}")
+
+
+def _ext_randrange(ex, args, kwargs, fr, node):
+    """External: random.randrange(lo, hi) raises unless lo < hi (so 'generation never fails' is the
+    call-pre obligation) and otherwise returns an arbitrary r with lo <= r < hi - every outcome of
+    every draw is covered."""
+    if len(args) != 2:
+        raise Unsupported("randrange arity")
+    lo, hi = ex.as_int(args[0]), ex.as_int(args[1])
+    ex.oblige("call-pre", lo < hi, f"randrange@L{node.lineno}", {"clause": "lo < hi (else randrange raises)"})
+    ex.assume(lo < hi)
+    r = ex.fresh("randrange")
+    ex.pc.append(z3.And(lo <= r, r < hi))
+    ex.assumptions_used.add("random.randrange(lo, hi): external; contract lo < hi required, result arbitrary in [lo, hi)")
+    return r
 
 
 class Verifier:
@@ -543,6 +570,9 @@ class Verifier:
             old = {"old_" + k: reg.snap(ex, v, memo) for k, v in env.items()}
             scope.update(old)
             ex.entry_scope = dict(old)
+            if con.split and not getattr(ex, "split_terms", None):
+                sfr = Frame(None, con.module, dict(env), spec=True)
+                ex.split_terms = [(ex.as_int(ex.ev(ast.parse(e, mode="eval").body, sfr)), n) for e, n in con.split]
             self._entry_mutables = self.reachable_mutables(ex, env)
             self._entry_refs = {}
             for path, what, loc in self._entry_mutables:
@@ -592,7 +622,32 @@ class Verifier:
 
         ex.explore(run)
         reg.current = None
+        if con.split:
+            self.apply_split(ex)
         return ex
+
+    def apply_split(self, ex):
+        """Case split hint: every obligation is proved once per combination of residues, with the
+        split terms substituted by their values; exhaustiveness of the split is its own obligation."""
+        import itertools
+        from .exec import Obligation
+        terms = ex.split_terms
+        new = []
+        for ob in ex.order:
+            g = simp(ob.goal)
+            if z3.is_true(g):
+                new.append(ob)
+                continue
+            for combo in itertools.product(*[range(n) for _, n in terms]):
+                sub = [(t, I(v)) for (t, _), v in zip(terms, combo)]
+                assum = [simp(z3.substitute(a, *sub)) for a in ob.assumptions]
+                assum += [t == v for (t, v) in sub]
+                new.append(Obligation(ob.name + "#case" + "_".join(map(str, combo)), ob.kind, assum,
+                                      simp(z3.substitute(ob.goal, *sub)), ob.info, ob.fn))
+            exh = z3.And(*[z3.And(0 <= t, t < n) for t, n in terms])
+            new.append(Obligation(ob.name + "#split-exhaustive", "split", list(ob.assumptions), exh,
+                                  {"clause": "the case split covers every value"}, ob.fn))
+        ex.order = new
 
     def verify_lemma(self, qualname, ex=None):
         fi, deco = self.reg.lemmas[qualname]
